@@ -140,7 +140,9 @@ def main():
                 "logL": float(s["logL"][i]), "logL_re": float(logl_re[i]), "it": int(s["it"][i]),
                 "lq": [float(v) for v in st.log_q[i]], "lq_re": [float(v) for v in lq_re[i]],
             })
-        return {"store": name, "rows": rows, "n": int(len(s)), "vec": vec,
+        its, cnt = np.unique(np.asarray(s["it"]), return_counts=True)
+        return {"store": name, "rows": rows, "n": int(len(s)), "vec": vec, "n_flows": int(lq_re.shape[1]),
+                "by_it": {int(k): int(v) for k, v in zip(its, cnt)},
                 "live": None if st.live_points_indices is None else int(len(st.live_points_indices))}
 
     flags = {"recomputed": False}
